@@ -37,8 +37,10 @@ def num_tok(rng, c):
     forms = [str(c)]
     if rng:
         forms += [str(c), "%d.0" % c, "%d." % c] + (["%de0" % c] if c > 0 else [])
-        if c >= 0:      # IntegerLiteral: hexadecimal and binary numerals
+        if c >= 0:      # IntegerLiteral: hexadecimal and binary numerals, underscores between digits
             forms += [hex(c), bin(c).replace("0b", "0B")]
+            if c >= 10:
+                forms += [str(c)[0] + "_" + str(c)[1:], str(c)[0] + "__" + str(c)[1:]]
     return T("num", c, rng.choice(forms) if rng else forms[0])
 
 
